@@ -311,6 +311,82 @@ async def _real_listener_scenario(seed: int) -> list[dict[str, Any]]:
     return out
 
 
+async def _recovering_handler_scenario(timeouts: bool) -> tuple[list[Any], list[Any]]:
+    """AsyncUDPNetworkServer with the request handler of the public API (AsyncDatagramRequestHandler.handle): a handler that catches what is
+    thrown at its yield - a parse error, an idle timeout - and keeps going gets every later datagram of that client, on the same generator."""
+    from easynetwork.exceptions import DatagramProtocolParseError
+    from easynetwork.lowlevel.socket import INETSocketAttribute
+    from easynetwork.protocol import DatagramProtocol
+    from easynetwork.serializers.json import JSONSerializer
+    from easynetwork.servers.async_udp import AsyncUDPNetworkServer
+    from easynetwork.servers.handlers import AsyncDatagramRequestHandler
+
+    import socket
+
+    backend = harness.HarnessBackend()
+    lsock = socket.socket(socket.AF_INET, socket.SOCK_DGRAM)
+    lsock.bind(("127.0.0.1", 0))
+    listeners: list[Any] = []
+    seen: dict[Any, list[Any]] = {}
+
+    class H(AsyncDatagramRequestHandler[Any, Any]):
+        async def handle(self, client: Any) -> Any:
+            from easynetwork.servers.handlers import INETClientAttribute
+
+            log = seen.setdefault(client.extra(INETClientAttribute.remote_address).port, [])
+            log.append("start")
+            while True:
+                try:
+                    req = yield (0.5 if timeouts else None)
+                except DatagramProtocolParseError:
+                    log.append("parse-error")
+                    continue
+                except TimeoutError:
+                    log.append("idle")
+                    continue
+                log.append(req)
+                await client.send_packet(req)
+
+    def make(*a: Any, **kw: Any) -> list[Any]:
+        lst = memtransport.MemDatagramListener(
+            backend, extra={INETSocketAttribute.socket: lambda: lsock, INETSocketAttribute.family: lambda: lsock.family, INETSocketAttribute.sockname: lambda: lsock.getsockname()}
+        )
+        listeners.append(lst)
+        return [lst]
+
+    backend.udp_listeners_factory = make
+    server = AsyncUDPNetworkServer("127.0.0.1", 0, DatagramProtocol(JSONSerializer()), H(), backend=backend)
+    up = asyncio.Event()
+    task = asyncio.ensure_future(server.serve_forever(is_up_event=up))
+    try:
+        await asyncio.wait_for(up.wait(), 5)
+        lst = listeners[-1]
+        a, b = ("10.0.0.1", 1001), ("10.0.0.2", 1002)
+        want_a: list[Any] = ["start"]
+        for i, payload in enumerate([b"1", b"\xff\xfe", b"2", b"{", b"3", b"4"]):
+            lst.push(payload, a)
+            if i == 1:
+                lst.push(b"100", b)
+            await harness.settle()
+            if timeouts and i == 2:
+                await asyncio.sleep(0.6)  # nothing for a while: the handler is told, and keeps going
+            try:
+                want_a.append(__import__("json").loads(payload))
+            except ValueError:
+                want_a.append("parse-error")
+        await harness.settle()
+        got_a, got_b = seen.get(1001, []), seen.get(1002, [])
+        if timeouts and "idle" not in got_a:
+            got_a = got_a + ["<never told about the idle period>"]
+        # (the idle notifications themselves are not datagrams: what is compared is what was delivered around them)
+        return [[x for x in got_a if x != "idle"], [x for x in got_b if x != "idle"]], [want_a, ["start", 100]]
+    finally:
+        await server.shutdown()
+        await asyncio.wait([task], timeout=5)
+        await server.server_close()
+        lsock.close()
+
+
 def _run_one(seed: int) -> list[dict[str, Any]]:
     return vloop.run(lambda: _scenario(seed))  # type: ignore[no-any-return]
 
@@ -331,6 +407,17 @@ def run(chk: Check) -> None:
         rec += part
     for i in range(12 if quick else 300):
         rec += asyncio.run(_real_listener_scenario(chk.seed * 13 + i))
+    for timeouts in (False, True):
+        got, want = vloop.run(lambda: _recovering_handler_scenario(timeouts))
+        chk.traces += 1
+        chk.distinct.add(("recovering_handler", timeouts))
+        if got != want:
+            chk.violation(
+                {"kind": "handler_api", "what": "recovering_handler"},
+                f"AsyncUDPNetworkServer, a handler that catches the parse errors{' and idle timeouts' if timeouts else ''} thrown at its yield and keeps going: "
+                f"the handlers of the two clients saw {got}, the datagrams sent are {want}",
+                {"kind": "recovering_handler", "timeouts": timeouts},
+            )
     from . import c16_eager
 
     erec: list[dict[str, Any]] = []
